@@ -62,10 +62,24 @@ pub fn run_main(p: Prop) {
             }
         }
     }
+    let mut gen_panics = 0u64;
     if mode == "gen" {
         let mut rng = Rng::new(seed);
         for k in 0..n {
-            cases.push((p.gen)(&mut rng, k, n, thorough));
+            // some generators drive the implementation (to keep cases valid or small); if it
+            // panics there, draw again instead of losing the whole shard
+            let mut tries = 0;
+            loop {
+                let r = std::panic::catch_unwind(std::panic::AssertUnwindSafe(|| (p.gen)(&mut rng, k, n, thorough)));
+                match r {
+                    Ok(c) => { cases.push(c); break }
+                    Err(_) => {
+                        gen_panics += 1;
+                        tries += 1;
+                        if tries >= 20 { break }
+                    }
+                }
+            }
         }
     }
     std::fs::create_dir_all(&out).unwrap();
@@ -73,6 +87,9 @@ pub fn run_main(p: Prop) {
     let mut fi = std::io::BufWriter::new(std::fs::File::create(format!("{out}/impl.txt")).unwrap());
     let mut fo = std::io::BufWriter::new(std::fs::File::create(format!("{out}/oracle.txt")).unwrap());
     let mut stats = Stats::default();
+    if gen_panics > 0 {
+        stats.add("implementation_panicked_inside_the_generator", gen_panics);
+    }
     let mut distinct: HashSet<String> = HashSet::new();
     let mut nfail = 0;
     for (k, c) in cases.iter().enumerate() {
